@@ -40,6 +40,7 @@ def run(tier, rep, replay=None):
         C.run(args, env=dict(os.environ, **env), timeout=3000, what="c12 driver " + label)
         lines += C.read_ndjson(tp)
     tlines = C.read_ndjson(os.path.join(w, "tower.ndjson"))
+    sqlines = []
     for pkg in INTREE:
         for label, tags, env in CONFIGS:
             tb = C.go_build_intree(w, pkg, tags=tags)
@@ -48,6 +49,11 @@ def run(tier, rep, replay=None):
                   timeout=3000, what="in-tree recorder %s %s" % (pkg, label))
             if os.path.exists(tp):            # absent when the package has no such back-end under this build tag (P-384 under purego)
                 lines += C.read_ndjson(tp)
+            if pkg == "ecc/fourq":            # the square root of GF(p^2) used by point decoding
+                sp = os.path.join(w, "sq-%s.ndjson" % label)
+                C.run([tb, "-test.run", "TestVerifSqrt", "-test.count=1"], env=dict(os.environ, VERIF_OUT=sp, VERIF_SEED=str(C.SEED), VERIF_N=str(max(4, n // 40)), VERIF_IMPL=label, **env),
+                      timeout=3000, what="in-tree fqSqrt recorder " + label)
+                sqlines += C.read_ndjson(sp)
     tbad, tstates = validate_parallel(w, tlines, module="Trace_Tower", sub="tw")
     for ln in tbad:
         rep.violation("tower:%s:%s:%s" % (ln["f"], ln["op"], ln["alias"]), {"observed": {k: v for k, v in ln.items() if k not in ("qa", "qb")}, "explain": "tower-field result is not the one the reduction polynomials give (TowerMachine.tla), or an operand changed"})
@@ -61,6 +67,18 @@ def run(tier, rep, replay=None):
             if b2 != [0]:
                 raise C.Infra("tower binding canary accepted")
     rep.add(tower_events=len(tlines), tower_ops=sorted({l["f"] + "." + l["op"] for l in tlines}))
+    sbad, sr = C.validate_lines(w, "Trace_FqSqrt", "Lines.cfg", sqlines)
+    for i in sbad:
+        ln = sqlines[i]
+        rep.violation("field:fourq:fqsqrt:%s:%s" % (ln["class"].replace(" ", "-"), ln["impl"]), {"observed": ln, "explain": "u / v is a square of GF(p^2) (certified) but the result is not its root with the requested sign (Trace_FqSqrt.tla)"})
+    sgood = [l for i, l in enumerate(sqlines) if i not in set(sbad) and l["square"] and l["class"] == "general"]
+    if sgood:
+        x = copy.deepcopy(sgood[0])
+        x["c"][0][0] = (x["c"][0][0] + 1) % 4096
+        b3, _ = C.validate_lines(w, "Trace_FqSqrt", "Lines.cfg", [x])
+        if b3 != [0]:
+            raise C.Infra("fqSqrt binding canary accepted")
+    rep.add(fqsqrt_lines=len(sqlines), fqsqrt_classes=sorted({l["class"] for l in sqlines}))
     bad, states = validate_parallel(w, lines)
     for ln in bad:
         rep.violation("field:%s:%s:%s" % (ln["f"], ln["op"], ln["impl"].split()[-1]), {"observed": ln, "explain": "result is not congruent to the mathematical result / a non-destination register changed / wrong canonical form"})
